@@ -5,16 +5,16 @@
 std::vector<CheckDef>& check_table()
 {
 	static std::vector<CheckDef> t = {
-		{ "C01", "exploration", { { "recover", 400, 12000 } },
+		{ "C01", "exploration", { { "recover", 3000, 60000 } },
 		  "seeded configuration + sync history to a clean synced state, then a seeded damage set with <= N damaged blocks in every stripe (whole devices: any <= N of data disks and parity levels; "
 		  "or per-stripe patterns: files deleted/truncated/extended, blocks flipped with the stamp restored, parity blocks damaged, links/dirs removed, content copies lost), then fix + check. "
 		  "Non-trivial = at least one block of a used stripe was damaged; distinct = distinct (config, op sequence) hashes" },
-		{ "C07", "fault_enumeration", { { "crash", 48, 1500 } },
+		{ "C07", "fault_enumeration", { { "crash", 64, 2500 } },
 		  "per scenario (seeded array + pending changes + sync variant or damaged array + fix) the command runs once fault-free to count its M state-changing system calls; then the pre-state is restored and the "
 		  "same schedule replayed with the process killed before / after / in the middle (torn write) of call k, and with SIGINT/SIGTERM raised at I/O call n. quick: every k inside the content save-verify-rename and parity "
 		  "resize windows plus a stride elsewhere; thorough: every k. After each interruption: data unchanged, content copies complete, independent parity oracle, a command loads the state, sync again + check + diff, and for "
 		  "additions-only scenarios recovery of previously synced files after losing a data disk. A case is non-trivial when the kill landed between the first parity write and the last content rename (or the signal was delivered)" },
-		{ "C06", "exploration", { { "parity-inv", 300, 10000 } },
+		{ "C06", "exploration", { { "parity-inv", 4000, 80000 }, { "crash", 16, 400 } },
 		  "seeded histories of file-system changes interleaved with sync variants/scrub/fix/touch/rehash/check under seeded schedules; the independent parity oracle runs after every command. "
 		  "A run is non-trivial when at least one fully synced stripe was compared with parity and >= 3 commands ran; distinct = distinct (config, op sequence) hashes" },
 	};
